@@ -648,7 +648,7 @@ def check(prop, tier, seed, replay=None):
         "evaluations": evals, "distinct_nontrivial": len(distinct), "rule": RULES[prop], "samples": samples,
         "simulated_runs": evals, "runs_per_hour": int(evals / max(run_wall, 1e-6) * 3600), "simulated_seconds": round(simns / 1e9, 6),
         "scheduling_steps": steps, "context_switches": switches, "instrumented_memory_events": memev,
-        "distinct_interleavings_or_plans": len(distinct), "fault_fire_counts": faults, "probes": probes, "budget_exceeded_runs": budget,
+        "distinct_interleavings_or_plans": len(distinct), "fault_fire_counts": faults, "probes": probes, "runs_stopped_by_the_simulators_step_budget_not_judged": "%d" % budget,
         "components": COMPONENTS, "known_findings_seen": known_seen, "violation_signatures": sorted(by_sig.keys()),
         "determinism_canary": {"reexecuted": len(sample), "mismatches": canary_bad}, "build_seconds": round(build_s, 1),
         "internal_errors": internal, "exhaustive": False, "auxiliary": aux,
